@@ -665,3 +665,6 @@ def run(ctx):
                               'the previous observations',
                               ctx.where(sm, st))
     ctx.need(n >= 1, 'no store to data.observed found in Simulation')
+    # saved and re-loaded data keep their labels (rule of C17, shared)
+    from .c17 import h5_order
+    h5_order(ctx, 'C13.N4.h5order')
